@@ -2,6 +2,12 @@
 
 package vsched
 
+import (
+	"sync"
+	"sync/atomic"
+	"time"
+)
+
 // Channel baton: used in ordinary builds. (The race build uses raw pipes so
 // that the scheduler's hand-offs are invisible to the race detector.)
 
@@ -13,6 +19,11 @@ var (
 const RaceBaton = false
 
 func batonReset() {
+	startWatchdog()
+	select {
+	case <-stuckCh:
+	default:
+	}
 	reqCh = make(chan msg, 4*MaxThreads)
 	for i := range grantCh {
 		grantCh[i] = make(chan int64, 1)
@@ -25,7 +36,41 @@ func batonSend(tid int32, op Op, res uintptr, arg int64) {
 
 func batonWait(tid int) int64 { return <-grantCh[tid] }
 
-func batonRecv() msg { return <-reqCh }
+// batonRecv waits for the next request; a watchdog goroutine turns StuckTimeout without any request into an OpStuck message.
+func batonRecv() msg {
+	atomic.StoreInt64(&waitSince, time.Now().UnixNano())
+	var m msg
+	select {
+	case m = <-reqCh:
+	case <-stuckCh:
+		m = msg{tid: -1, op: OpStuck}
+	}
+	atomic.StoreInt64(&waitSince, 0)
+	return m
+}
+
+var waitSince int64
+var stuckCh = make(chan struct{}, 1)
+var watchdogOnce sync.Once
+
+func startWatchdog() {
+	watchdogOnce.Do(func() {
+		go func() {
+			for {
+				time.Sleep(500 * time.Millisecond)
+				ws := atomic.LoadInt64(&waitSince)
+				if ws != 0 && time.Now().UnixNano()-ws > int64(StuckTimeout) {
+					if atomic.CompareAndSwapInt64(&waitSince, ws, time.Now().UnixNano()) {
+						select {
+						case stuckCh <- struct{}{}:
+						default:
+						}
+					}
+				}
+			}
+		}()
+	})
+}
 
 func batonGrant(tid int, v int64) { grantCh[tid] <- v }
 
